@@ -122,6 +122,14 @@ class M:
             for c in self.value:
                 c.begin_cycle()
 
+    def touched(self):
+        """written or invalidated (by the script) in the current cycle, here or anywhere below"""
+        if self.k in ("TSL", "TSB"):
+            return any(c.touched() for c in self.value)
+        if self.k == "TSD":
+            return self.written or self.invalidated_now or bool(self.erased_now) or any(c.touched() for c in self.value.values())
+        return self.written or self.invalidated_now
+
     def ever_written(self):
         if self.k in ("TSL", "TSB"):
             return any(c.ever_written() for c in self.value)
@@ -263,6 +271,15 @@ class M:
         if k == "i":
             eff = self.value[op["i"]].apply(op["op"], t)
             return eff
+        if k == "setv":
+            # whole-value write of a partially populated bundle value: only the populated leaves are written
+            if self.k == "TS":
+                return self.apply({"k": "set", "v": op["v"]}, t)
+            eff = False
+            for i, spec in op["v"].items():
+                if self.value[int(i)].apply({"k": "setv", "v": spec}, t):
+                    eff = True
+            return eff
         raise ValueError(f"model: op {k}")
 
 
@@ -348,11 +365,17 @@ def gen_op(draw, m: M, t, opts):
                 c = M(child)  # scratch for generation; the real create happens in apply below
                 c.begin_cycle()
                 tmp = gen_op(draw, c, t, dict(opts, inval=False, grow=False))
+                if not c.ever_written():
+                    # a key is added by writing its element: a whole-value write that populates nothing would create a
+                    # key without any value, which no delta can express
+                    tmp = gen_op(draw, c, t, dict(opts, inval=False, grow=False, whole=False))
                 o = ["at", key, tmp]
                 # replay on the real model
                 m.apply({"k": "D", "ops": [o]}, t)
                 return o
             tmp_op = gen_op(draw, c, t, dict(opts, inval=False, grow=False))
+            if tmp_op is not None and tmp_op.get("k") == "setv" and not c.modified():
+                tmp_op = gen_op(draw, c, t, dict(opts, inval=False, grow=False, whole=False))
             m.mark(t)
             return ["at", key, tmp_op]
 
@@ -400,11 +423,30 @@ def gen_op(draw, m: M, t, opts):
                 else:
                     ops.append(child_write(fresh))
         return {"k": "D", "ops": ops}
+    if k == "TSB" and opts.get("whole") and not m.touched() and draw(st.integers(0, 3)) == 0:
+        # whole-value write of a partially populated bundle value (unset fields are skipped by the engine); generated
+        # only while nothing below was written or invalidated yet in this cycle (the engine refuses a whole-value write over a
+        # nested container that was already stamped in the cycle: "fixed TSData child reported a duplicate modification"). The degenerate value that populates nothing - at the
+        # top or in a nested bundle field - must leave every flag untouched.
+        op = {"k": "setv", "v": _partial(draw, m.s), "move": draw(st.booleans())}
+        m.apply(op, t)
+        return op
     if k in ("TSL", "TSB"):
         i = draw(st.integers(0, len(m.value) - 1))
         op = gen_op(draw, m.value[i], t, opts)
         return None if op is None else {"k": "i", "i": i, "op": op}
     raise ValueError(k)
+
+
+def _partial(draw, schema):
+    """a partially populated value for a TSB position: {"<index>": scalar | nested spec}; only TS and TSB fields are populated"""
+    out = {}
+    for i, (_, cs) in enumerate(schema[1]):
+        if cs[0] == "TS" and draw(st.integers(0, 2)) != 0:
+            out[str(i)] = _scalar(draw, cs[1])
+        elif cs[0] == "TSB" and draw(st.integers(0, 2)) != 0:
+            out[str(i)] = _partial(draw, cs)
+    return out
 
 
 @st.composite
